@@ -8,9 +8,12 @@ package main
 
 import (
 	"crypto/hmac"
+	"crypto/md5"
 	"crypto/sha1"
 	"crypto/sha256"
+	"crypto/sha512"
 	"encoding/base64"
+	"encoding/hex"
 	"fmt"
 	"hash"
 	"strconv"
@@ -550,5 +553,55 @@ func c02ForgedSigs(key, name, value, ts, origSig string, otherKeys map[string]st
 	out["mac-without-name"] = c02Sig(key, "", value, ts)
 	out["mac-without-timestamp"] = c02Sig(key, name, value, "")
 	out["mac-without-value"] = c02Sig(key, name, "", ts)
+	return out
+}
+
+// c02PublicSigs: signatures that somebody who does NOT know the cookie secret can compute — every plausible keyless
+// or public-key construction over the public parts of the cookie (name, value, timestamp): HMAC-{SHA1,SHA256,SHA512,MD5}
+// keyed with the cookie name, the empty key, the value, the timestamp, host names and well-known strings, and the
+// plain (unkeyed) hashes, over ALL orderings of the three public parts and of (value, timestamp); thorough adds the
+// remaining pairs and the single parts. Encodings: base64url padded (what the proxy emits) for all; unpadded, std
+// alphabet and hex for the constructions keyed with the name / empty key / unkeyed (thorough: for all).
+// The proxy cannot have produced any of them (genuine is excluded by the caller): all must be rejected.
+func c02PublicSigs(name, value, ts string, thorough bool) map[string]string {
+	hashes := []struct {
+		n string
+		f func() hash.Hash
+	}{{"sha1", sha1.New}, {"sha256", sha256.New}, {"sha512", sha512.New}, {"md5", md5.New}}
+	keys := []struct{ n, k string }{{"name", name}, {"empty", ""}, {"value", value}, {"timestamp", ts}, {"host-localhost", "localhost"}, {"host-127.0.0.1", "127.0.0.1"},
+		{"secret", "secret"}, {"oauth2-proxy", "oauth2-proxy"}, {"unkeyed", ""}}
+	parts := map[byte]string{'n': name, 'v': value, 't': ts}
+	orders := []string{"nvt", "ntv", "vnt", "vtn", "tnv", "tvn", "vt", "tv"}
+	if thorough {
+		orders = append(orders, "nv", "vn", "nt", "tn", "n", "v", "t")
+	}
+	out := map[string]string{}
+	for _, h := range hashes {
+		for _, k := range keys {
+			for _, o := range orders {
+				var m hash.Hash
+				if k.n == "unkeyed" {
+					m = h.f()
+				} else {
+					if strings.IndexByte(o, 'n') >= 0 && k.n == "name" && len(o) == 3 && !thorough && o != "nvt" {
+						// name as key AND in the message: keep one ordering in quick
+						continue
+					}
+					m = hmac.New(h.f, []byte(k.k))
+				}
+				for i := 0; i < len(o); i++ {
+					m.Write([]byte(parts[o[i]]))
+				}
+				sum := m.Sum(nil)
+				label := fmt.Sprintf("public:%s/key=%s/msg=%s", h.n, k.n, o)
+				out[label+"/b64url"] = base64.URLEncoding.EncodeToString(sum)
+				if thorough || k.n == "name" || k.n == "empty" || k.n == "unkeyed" {
+					out[label+"/b64url-nopad"] = base64.RawURLEncoding.EncodeToString(sum)
+					out[label+"/b64std"] = base64.StdEncoding.EncodeToString(sum)
+					out[label+"/hex"] = hex.EncodeToString(sum)
+				}
+			}
+		}
+	}
 	return out
 }
